@@ -120,6 +120,8 @@ def build_harness(profile):
     cmd = ["cargo", "build", "--offline", "--quiet"]
     if profile == "release":
         cmd.append("--release")
+    elif profile != "debug":
+        cmd += ["--profile", profile]
     env = dict(os.environ, CARGO_NET_OFFLINE="true")
     t0 = time.time()
     p = subprocess.run(cmd, cwd=HARNESS, env=env, stdout=subprocess.PIPE, stderr=subprocess.STDOUT, text=True)
@@ -157,7 +159,7 @@ def supervise(binary, jobs, stall_s=20, max_restarts=50):
                     # exit code of an uncaught Rust panic: panics of the code under test are caught (catch_unwind), so this is the harness itself
                     raise ToolError("the harness panicked (job %s, item %s): %s" % (j.get("jobfile"), hb, (pr["p"].stderr.read() or "")[-1500:]))
                 if rc != 0 and hb is not None and hb != DONE:
-                    incidents.append({"kind": "abort", "job": j, "item": hb, "rc": rc, "stderr": pr["p"].stderr.read()[-2000:] if pr["p"].stderr else ""})
+                    incidents.append({"kind": "abort", "job": j, "item": hb, "rc": rc, "stderr": pr["p"].stderr.read()[-2000:] if pr["p"].stderr else "", "input": cur_input(j)})
                     if pr["restarts"] < max_restarts:
                         nj = dict(j, start=hb + 1)
                         np = start_job(binary, nj)
@@ -170,13 +172,20 @@ def supervise(binary, jobs, stall_s=20, max_restarts=50):
                 pr["p"].kill()
                 pr["p"].wait()
                 procs.remove(pr)
-                incidents.append({"kind": "hang", "job": j, "item": hb})
+                incidents.append({"kind": "hang", "job": j, "item": hb, "input": cur_input(j)})
                 if pr["restarts"] < max_restarts:
                     nj = dict(j, start=hb + 1)
                     np = start_job(binary, nj)
                     np["restarts"] = pr["restarts"] + 1
                     procs.append(np)
     return incidents
+
+def cur_input(j):
+    """the input a job was working on when it died (written by the modes that run one call per thread)"""
+    try:
+        return open(j["hb"] + ".input", encoding="utf-8").read()
+    except Exception:
+        return None
 
 DONE = 18446744073709551615
 def read_hb(path):
